@@ -45,13 +45,17 @@ def check_history(case, ev):
     fa, exc = guarded(lambda: FileAnonymizer(anon_pwd=True, anon_ip=False, salt=case["salt"]))
     if exc is not None:
         return core.exc_finding(exc, case, "ctor/")
-    out, exc = guarded(core.run_io, fa, "".join(l[0] + "\n" for l in lines))
-    if exc is not None:
-        return core.exc_finding(exc, case, "run/")
-    outs = out.split("\n")[:-1]
+    cuts = sorted(set(c for c in case.get("calls", []) if 0 < c < len(lines)))
+    outs = []
+    for a, b in zip([0] + cuts, cuts + [len(lines)]):
+        # several anonymize_io calls on ONE FileAnonymizer (library use): still one run
+        out, exc = guarded(core.run_io, fa, "".join(l[0] + "\n" for l in lines[a:b]))
+        if exc is not None:
+            return core.exc_finding(exc, case, "run/")
+        outs += out.split("\n")[:-1]
     if len(outs) != len(lines):
         return Finding("history/line-count-changed", "%d in, %d out" % (len(lines), len(outs)), case)
-    return _model_check(case, lines, outs, ev, [])
+    return _model_check(case, lines, outs, ev, ["several-anonymize_io-calls"] if cuts else [])
 
 
 def check_dir(case, ev):
@@ -246,7 +250,8 @@ def _case(draw, max_lines=30):
                 "cls": c,
             }
         )
-    return {"salt": draw(st.sampled_from(["Tsalt", "", "s", "_x", "QzF", "iH"])), "lines": lines}
+    calls = draw(st.lists(st.integers(1, max(1, len(lines) - 1)), max_size=3)) if draw(st.integers(0, 2)) == 0 else []
+    return {"salt": draw(st.sampled_from(["Tsalt", "", "s", "_x", "QzF", "iH"])), "lines": lines, "calls": calls}
 
 
 @st.composite
